@@ -30,3 +30,50 @@ pub assume_specification<const N: usize> [ bnum::BInt::<N>::abs ] (x: bnum::BInt
     requires iv(x) > -(pow_w(N as nat) as int) / 2
     ensures iv(r) == (if iv(x) < 0 { -iv(x) } else { iv(x) });
 } // verus!
+
+verus! {
+#[verifier::external_type_specification]
+#[verifier::external_body]
+pub struct ExSieveMPQS<'a>(SieveMPQS<'a>);
+
+#[verifier::external_type_specification]
+#[verifier::external_body]
+pub struct ExSieveRecycle(sieve::SieveRecycle);
+
+/// what `batch_inversion` reads of the sieve context (the struct holds locks and atomics and stays opaque)
+pub uninterp spec fn mpqs_fb(s: &SieveMPQS) -> FBase;
+pub uninterp spec fn mpqs_invs(s: &SieveMPQS) -> Seq<arith::Inverter>;
+
+/// Rmq accessors
+#[verifier::external_body]
+fn ol_mpqs_fbase<'a, 'b>(s: &'b SieveMPQS<'a>) -> (r: &'b FBase)
+    ensures *r == mpqs_fb(s),
+{ s.fbase }
+
+#[verifier::external_body]
+fn ol_mpqs_inverters<'a, 'b>(s: &'b SieveMPQS<'a>) -> (r: &'b [arith::Inverter])
+    ensures r@ == mpqs_invs(s),
+{ s.inverters }
+
+/// the part of the construction of the context (`mpqs()`: not under contract) that `batch_inversion` relies on: a
+/// well-formed factor base of primes below 2^28, and one inverter per odd prime
+pub open spec fn mpqs_ctx_ok(s: &SieveMPQS) -> bool {
+    &&& mpqs_fb(s).wf()
+    &&& mpqs_invs(s).len() == mpqs_fb(s).sp().len()
+    &&& forall|i: int| 0 <= i < mpqs_fb(s).sp().len() ==> is_prime(#[trigger] mpqs_fb(s).sp()[i] as nat)
+    &&& forall|i: int| 0 <= i < mpqs_fb(s).sp().len() && mpqs_fb(s).sp()[i] != 2 ==> (#[trigger] mpqs_invs(s)[i]).wf(mpqs_fb(s).sp()[i] as int)
+}
+
+impl Workspace {
+    pub closed spec fn table(&self) -> Seq<Box<[u32]>> { self.dinv_modp@ }
+    /// every existing row has one entry per factor-base prime
+    pub open spec fn rows_ok(&self, len: int) -> bool {
+        forall|j: int| 0 <= j < self.table().len() ==> (#[trigger] self.table()[j])@.len() == len
+    }
+}
+
+/// the table contract: 0 marks p | D, otherwise the entry is the inverse of D modulo p
+pub open spec fn dinv_entry_ok(e: u32, d: u128, p: u32) -> bool {
+    if (d as int) % (p as int) == 0 { e == 0 } else { (e as int) < p as int && cong(e as int * ((d as int) % (p as int)), 1, p as int) }
+}
+} // verus!
